@@ -874,3 +874,68 @@ Proof.
     eapply match1_values; eauto.
   - destruct Hspec as (vs & hs' & i & D). rewrite Hres in D. discriminate.
 Qed.
+
+(* ---- the statements of props/C01.v in their final form ---- *)
+Lemma get_dfs_spec_lemma :
+  forall filt (n : node), wf n -> forall (path : str) (i : nat),
+    match get_at filt true n path i with
+    | GFound d nm vs _ =>
+      exists p, In (p, (d, nm)) (paths n) /\ matchf filt p path = Some vs /\
+                forall p' e', In (p', e') (paths n) -> matchf filt p' path <> None ->
+                              p' = p \/ betterb p p' = true
+    | GFail _ _ _ => forall p' e', In (p', e') (paths n) -> matchf filt p' path = None
+    end.
+Proof.
+  intros filt n Hw path i. pose proof (get_at_sel filt n Hw path i) as H. unfold sel_ok, optimal in H.
+  destruct (get_at filt true n path i); exact H.
+Qed.
+
+Lemma resolve_eq_spec_script_lemma : forall filt (cs : list cmd) (path : str) (cds : list str),
+  Forall add_cmd cs ->
+  let R := exec_cmds router0 cs in
+  match spec filt (rules_of R) (strip_sep path) with
+  | None => exists vs hs i, resolve filt R path cds = R404 vs hs i
+  | Some (q, d, vs) =>
+    exists rt hs,
+      nth_error (heap R) d = Some rt /\ In (r_pattern rt, d) (routes R) /\
+      q = pat_of (r_pattern rt) (r_filters rt) /\
+      resolve filt R path cds =
+      match dispatch_on (r_methods rt) cds with
+      | DCall m (h, mn) => ROk d m h (make_params (match mn with [] => r_names rt | _ :: _ => mn end) vs) hs
+      | D405 a => R405 a
+      end
+  end.
+Proof.
+  intros filt cs path cds Hcs R. apply resolve_eq_spec_lemma. apply Inv_exec; [apply Inv0 | exact Hcs].
+Qed.
+
+Lemma accepted_registered_lemma :
+  forall (cs : list cmd) rule pattern nm flts ms h name ow,
+    Forall add_cmd cs -> ntok pattern = length flts ->
+    let R := exec_cmds router0 cs in
+    (forall e, snd (rt_add R rule pattern nm flts ms h name ow) <> Some (AKeyError e)) ->
+    exists d, In (pat_of pattern flts, d) (rules_of (fst (rt_add R rule pattern nm flts ms h name ow))).
+Proof.
+  intros cs rule pattern nm flts ms h name ow Hcs Hn R. apply add_registers; [|exact Hn].
+  apply Inv_exec; [apply Inv0 | exact Hcs].
+Qed.
+
+Lemma c01_nonvacuous_lemma :
+  let a := 97%N in let b := 98%N in let c := 99%N in let s := 47%N in let x := [120%N] in
+  let cs := [CAdd 0 [a; s; b] [] [] [[71; 69; 84]%N] 1 None false;
+             CAdd 1 [a; s; 13%N] [x] [None] [[71; 69; 84]%N] 2 None false;
+             CAdd 2 [a; s; 13%N; s; c] [x] [None] [[71; 69; 84]%N] 3 None false;
+             CAdd 3 [a; s; 13%N; s; b] [x] [Some 0] [[71; 69; 84]%N] 4 None false] in
+  let R := exec_cmds router0 cs in
+  let filt := fun (_ : fid) (_ : str) => @None (value * nat) in
+  let G := [[71; 69; 84]%N] in
+  Forall add_cmd cs /\
+  length (rules_of R) = 3 /\
+  resolve filt R [s; a; s; b] G = ROk 0 [71; 69; 84]%N 1 [] [] /\
+  resolve filt R [s; a; s; c] G = ROk 1 [71; 69; 84]%N 2 [(x, [c])] [] /\
+  resolve filt R [s; a; s; b; s; c] G = ROk 2 [71; 69; 84]%N 3 [(x, [b])] [] /\
+  resolve filt R [s; a; s; 13%N; s; c] G = ROk 2 [71; 69; 84]%N 3 [(x, [13%N])] [] /\
+  (exists vs hs i, resolve filt R [s; a; s; b; s; b] G = R404 vs hs i).
+Proof.
+  cbv zeta. split; [repeat constructor|]. vm_compute. repeat split; eauto.
+Qed.
